@@ -478,6 +478,14 @@ func (tx *FnTx) binop(x *ssa.BinOp, st *State) {
 		default:
 			b = tx.coerce(b, a.Sort)
 			s = sapp("=", a.S, b.S)
+			if a.Sort == "Str" && (a.S == "str_empty") != (b.S == "str_empty") {
+				// the empty string is the only string of length 0
+				o := a.S
+				if o == "str_empty" {
+					o = b.S
+				}
+				tx.assume("(and (>= (strlen " + o + ") 0) (= (= " + o + " str_empty) (= (strlen " + o + ") 0)))")
+			}
 		}
 		if x.Op == token.NEQ {
 			s = snot(s)
